@@ -50,6 +50,9 @@ def read_conv_attributes(ir_conv: ir.Node) -> dict[str, Sequence[int] | str]:
     attributes["strides"] = ir_attributes.get_ints(
         "strides", [1] * len(ir_conv.inputs[0].shape[2:])
     )
+    attributes["dilations"] = ir_attributes.get_ints(
+        "dilations", [1] * len(ir_conv.inputs[0].shape[2:])
+    )
     attributes["auto_pad"] = ir_attributes.get_string("auto_pad", "NOTSET")
     if "pads" in ir_attributes:
         attributes["pads"] = ir_attributes.get_ints("pads")
@@ -283,6 +286,11 @@ class _NormalizePadFormatBase(orp.RewriteRuleClassBase):
                     "strides must have the same length than kernel_shape on "
                     f"{conv_node.name} ({conv_node.op_type})."
                 )
+            if len(attributes["kernel_shape"]) != len(attributes["dilations"]):
+                return check_result.fail(
+                    "dilations must have the same length than kernel_shape on "
+                    f"{conv_node.name} ({conv_node.op_type})."
+                )
         return check_result
 
 
@@ -302,10 +310,12 @@ class NormalizePadFormatConv(_NormalizePadFormatBase):
 
         bottom_pads, top_pads = [], []
         kernel_shape, strides = attributes["kernel_shape"], attributes["strides"]
+        dilations = attributes["dilations"]
         assert len(kernel_shape) == len(strides) == len(input_shape) == len(output_shape)
-        for x, y, k, s in zip(input_shape, output_shape, kernel_shape, strides):
+        for x, y, k, s, d in zip(input_shape, output_shape, kernel_shape, strides, dilations):
             # Compute the output shape and the total padding to apply
-            total_pads = max(0, (y - 1) * s + k - x)
+            # (a dilated kernel spans (k - 1) * d + 1 input elements)
+            total_pads = max(0, (y - 1) * s + (k - 1) * d + 1 - x)
 
             # Depending of mode, apply the padding to the upper or lower part
             pad1 = total_pads // 2
